@@ -33,6 +33,7 @@ AllQuiet ==
   /\ lock = 0
   /\ \A s \in Senders : spc[s] = "idle"
   /\ \A c \in Chans : cst[c] \in {"idle", "active", "unsubbed"} /\ rst[c] = "idle" /\ buf[c] = <<>>
+  /\ \A c \in Chans : \A x \in Callers : ucall[c][x] # "called"
 
 TReset == Logged(Ev.op = "reset" /\ AllQuiet /\
   /\ inbox' = <<>> /\ cases' = <<>> /\ lock' = 0
@@ -40,6 +41,7 @@ TReset == Logged(Ev.op = "reset" /\ AllQuiet /\
   /\ nact' = [s \in Senders |-> 0] /\ nsent' = [s \in Senders |-> 0]
   /\ scount' = [s \in Senders |-> 0]
   /\ cst' = [c \in Chans |-> "idle"] /\ nsubs' = [c \in Chans |-> 0]
+  /\ ucall' = [c \in Chans |-> [x \in Callers |-> "idle"]]
   /\ buf' = [c \in Chans |-> <<>>] /\ rst' = [c \in Chans |-> "idle"]
   /\ dlog' = [c \in Chans |-> <<>>] /\ order' = <<>>
   /\ whole' = [s \in Senders |-> {}] /\ late' = FALSE /\ panic' = FALSE)
@@ -47,8 +49,8 @@ TReset == Logged(Ev.op = "reset" /\ AllQuiet /\
 TLogged ==
   \/ Logged(Ev.op = "SubBegin"   /\ SubBegin(Ev.p))
   \/ Logged(Ev.op = "SubEnd"     /\ SubEnd(Ev.p))
-  \/ Logged(Ev.op = "UnsubBegin" /\ UnsubBegin(Ev.p))
-  \/ Logged(Ev.op = "UnsubEnd"   /\ UnsubEnd(Ev.p))
+  \/ Logged(Ev.op = "UnsubBegin" /\ UnsubBegin(Ev.p, Ev.n))     \* n = which of the callers of this subscription
+  \/ Logged(Ev.op = "UnsubEnd"   /\ UnsubEnd(Ev.p, Ev.n))
   \/ Logged(Ev.op = "SendBegin"  /\ SendBegin(Ev.p, Ev.v))
   \/ Logged(Ev.op = "SendEnd"    /\ sval[Ev.p] = Ev.v /\ nsent[Ev.p] = Ev.n /\ SendEnd(Ev.p))
   \/ Logged(Ev.op = "RecvBegin"  /\ RecvBegin(Ev.p))
@@ -72,7 +74,7 @@ TraceSpecFull == TraceInit /\ [][TraceNextFull]_<<vars, l>>
 (* FeedTraceFull.cfg validates with the unreduced relation as a cross-check.                *)
 AcquireMerge(s) == spc[s] = "lock" /\ lock = 0 /\ lock' = s /\ MergeBody(s, "lock")
 RInternal ==
-  \/ \E c \in Chans : InboxAdd(c) \/ UnsubInbox(c)
+  \/ \E c \in Chans : InboxAdd(c) \/ BodyStart(c) \/ UnsubInbox(c)
   \/ \E c \in Chans : Find(inbox, c) = 0 /\ UnsubLockedAt(c, "unsubCheck")
   \/ \E s \in Senders, c \in Chans : Find(inbox, c) = 0 /\ HandshakeAt(s, c, "unsubCheck")
   \/ \E s \in Senders : AcquireMerge(s)
